@@ -17,7 +17,9 @@ NoneC == [k |-> "none", kind |-> "", ds |-> {}, v |-> 0]
 \* "dirent" a sub-directory carrying a Spec name (ignored like every sub-directory)
 ValidKinds == {"ok", "linkok"}
 \* "noperm": a valid Spec file the process may not read (EACCES; the harness then runs without root)
-BadKinds == {"syntax", "semantic", "empty", "dangling", "noperm"}
+\* "blank": white space only; "nodoc": a comment or a document marker and nothing else; "nulldoc": the document `null`
+\* (three ways for a non-empty file to hold no Spec data)
+BadKinds == {"syntax", "semantic", "empty", "dangling", "noperm", "blank", "nodoc", "nulldoc"}
 MayFailKinds == {"linkdir"}
 
 Scannable(fs, dirs, i) == fs[dirs[i]].st = "dir"
